@@ -164,9 +164,12 @@ def call_function(it, fn, args, kwargs):
         reg = it.registry
         c = reg.lookup(fn) if reg is not None else None
         bound = bind_args(fn, args, kwargs)
+        if c is None and getattr(it, 'inline_all', 0):
+            return run_body(it, fn, bound)
         if c is None:
             raise EngineError(f'call to {I.qualname_of(fn)}: no contract and not transparent')
-        if c.mode == 'transparent' or it.concrete or c.inline_at_calls:
+        if c.mode == 'transparent' or it.concrete or c.inline_at_calls or \
+                getattr(it, 'inline_all', 0):
             it.used.add(c.qualname)
             return run_body(it, fn, bound)
         if c.at_calls == 'abstract':
@@ -631,6 +634,14 @@ def intrinsic(it, name, args, kwargs):
         return json_conforms(it, args[0], args[1], '$')
     if name == 'json_text':
         return it.models_mod._json_dumps(it, args[0])
+    if name == 'run_real':
+        f = args[0]
+        f = getattr(f, '__func__', f)
+        it.inline_all = getattr(it, 'inline_all', 0) + 1
+        try:
+            return run_body(it, f, bind_args(f, list(args[1:]), {}))
+        finally:
+            it.inline_all -= 1
     if name == 'line_kind':
         return mk_int(args[0].kind())
     if name == 'bytes_seq':
